@@ -23,7 +23,8 @@ def run(repo: Repo, chk: Check) -> None:
         "AESGCM.decrypt is the whole enc_content of the blob and of aes_key_unwrap the whole enc_cek, with no slicing or alternative decryption "
         "path; O2 no handler in the decrypt region continues after a failure; O3 every return of the unprotect functions is the AESGCM.decrypt "
         "result (no early return of other bytes); O4 every key-identifier field (L0, L1, L2, root key id, key_info, flags) and the protection "
-        "descriptor is used on the path that produces the KEK, and the nonce comes from the blob's own parameters."
+        "descriptor is used on the path that produces the KEK, and the nonce comes from the blob's own parameters; O5 every loop of the "
+        "decrypt region has a termination certificate and the region has no recursion (a modified blob ends in an error or a result)."
     )
     chk.scope_not = "cryptographic strength of AES-GCM / AES-KW; that every bit of the blob is covered (version, names, date influence nothing by design)."
     chk.trusted = ["cryptography: AESGCM.decrypt raises InvalidTag unless the tag verifies over the whole ciphertext; aes_key_unwrap raises InvalidUnwrap on a bad integrity check"]
@@ -36,6 +37,10 @@ def run(repo: Repo, chk: Check) -> None:
 
     get_key(repo, chk)
     store_key(repo, chk)
+    # "either fails with an error or returns": decoding a modified blob terminates (C05-O2 loop certificates)
+    from .c05 import region_terminates
+
+    region_terminates(repo, chk, "O5")
 
 
 def primitives(repo: Repo, chk: Check) -> None:
